@@ -239,6 +239,7 @@ def execute(plan):
     reg = common.gen_registry(random.Random(plan["fseed"]), [r]) if plan.get("registry") else None
     steps = Steps()
     with World(registry=reg) as w:
+        w.long_opts = bool(plan.get("long_opts"))
         hits = []
         monitored = install_bounds_monitor(w, hits)
         bump("bounds_monitor_installed" if monitored else "bounds_monitor_unavailable")
